@@ -141,13 +141,19 @@ def stale_calls(w, rng):
     rng.shuffle(out)
     return out
 
-def close_case(rng, tier):
+def close_case(rng, tier, many=False):
     w = World(rng, names=PLAIN if rng.random() < 0.7 else NAMES, uuid_names=False)
     l = ['cr_h5count']
     w.open('ow')
     for _ in range(rng.randint(6, 25 if tier == 'quick' else 60)):
         w.random_step()
     b = w.pick('B') or w.mk('B', None)
+    if many:
+        # a large population of live handles: every slot keeps its own HDF5 ids (well over a hundred at close)
+        for i in range(rng.randint(40, 70)):
+            w.mk(rng.choice(['A', 'T', 'G', 'O']), b, name='many%d' % i)
+        for i in range(rng.randint(10, 30)):
+            w.mk('S', w.pick('S') if rng.random() < 0.5 else None, name='sec%d' % i)
     for k in ('A', 'T', 'M', 'G', 'O', 'D'):
         if not w.alive(k, block=b.slot): w.mk(k, b)
     if not w.alive('S'): w.mk('S', None)
@@ -193,6 +199,8 @@ def cases(tier, seed, rng):
     out = crash_cases(rng, tier)
     for _ in range(10 if tier == 'quick' else 150):
         out.append(Case(close_case(rng, tier), 'gen:close'))
+    for _ in range(2 if tier == 'quick' else 25):
+        out.append(Case(close_case(rng, tier, many=True), 'gen:close-many-handles'))
     return out
 
 def nontrivial(case, tags):
